@@ -48,4 +48,12 @@ META = {
             "note": "Reference = long-double normal equations (full-pivot LU) and Jacobi eigenvalues for the condition number; known finding F12/F13 "
                     "(sparse path on numerically singular systems) is listed in known_findings.json and suppressed only inside cond > 1e15.",
             "technique": "runtime monitoring: reference-model oracle (long-double linear algebra) on random and degenerate systems, ASan/UBSan"},
+    "C09": {"text": "Exploration over histories: ~2.2k (quick) / 60k (thorough) monitored solves over 11 problem families x 4 differentiation modes x "
+                    "random options. The callback event stream is checked for: first event = start, non-increasing cost (re-evaluated by the monitor), "
+                    "<= 1 accepted step per iteration, final arguments = last iterate, not worse than start, iter <= max_iter, status truthful "
+                    "(deterministic re-run with max_iter+5 from a clone of the strategy state), and distance to the independent minimiser <= 1e-3 for "
+                    "Ftol/Ptol results of the well-conditioned families.",
+            "note": "Minimiser claim only for freshly constructed strategies and ptol, ftol <= 1e-6 (a radius inherited from an unrelated solve can stop "
+                    "the iteration early with Ptol; judged outside the statement, see DESIGN.md). Cost re-evaluated in double with the same functor.",
+            "technique": "runtime monitoring: history checker over callback events + independent minimisers (long-double normal equations, generating transform), ASan/UBSan"},
 }
